@@ -100,6 +100,20 @@ CLAIMED["C07"] = {
     "design_ref": "7 (C07)",
 }
 
+CLAIMED["C09"] = {
+    "technique": "Coq proofs over the catalog skeleton model (Catalog.build): for every accepted forest the collections have unique keys, every interaction key equals its id string and encodes protocol/method/path, tags and interactions reference each other mutually, every request/response has a body whose format matches its notation, Title() = info.title (invariant cat_inv carried through the pre-order fold of add_directive); id-string injectivity proved for HTTP and for JSON-RPC without spaces, refuted with a witness otherwise; tied to the code by skeleton correspondence (extracted model vs implementation JSON) and by an executable statement evaluated on the implementation's JSON",
+    "text": "12 theorems for all forests on the hand model coq/model/Catalog.v (schemas are opaque descriptors); the model's skeleton is compared with the implementation's JSON on fixtures and generated documents every run, and every clause of the property is evaluated on the implementation's compact and indented JSON.",
+    "note": "Trusted: Coq kernel, extraction + OCaml driver, harness, skeleton projection (verifsys/skeleton.py). JSON text level (encoding/json escaping, UTF-8 coercion) is outside the model: decided by the executable statement only. Known findings: JSON-RPC id collision, invalid-UTF-8 key collapse.",
+    "design_ref": "7 (C09)",
+}
+
+CLAIMED["C12"] = {
+    "technique": "Coq proofs about a heap model of ProcessAllOf (coq/model/AllOf.v: shared nodes, memo set, copy-by-value of children): for every library-accepted environment with allOf at schema roots the run succeeds within the default fuel and every type and use site renders as the pure transitive closure (allof_correct_rootlevel), bases are left unchanged, the result is independent of declaration order, undefined / non-object / non-JSight bases are rejected; nested cases by exhaustive model-vs-spec search; tied to the code by unit correspondence (the real exported ProcessAllOf on hand-built catalogs) and document correspondence",
+    "text": "15 theorems on the hand model of core/compile_catalog.go ProcessAllOf; the extracted model is compared with the real function on generated catalogs and with the implementation's JSON on generated documents every run.",
+    "note": "Trusted: Coq kernel, extraction + OCaml driver, harness (fn_allof.go builds catalogs through the exported API), lib_ok as the model of what the schema library accepts (validated by the document runs). Partial: allOf below nested objects and whole-run override rejection are decided by exhaustive search and examples, not by proof.",
+    "design_ref": "7 (C12)",
+}
+
 def main():
     checks = []
     for pid in ALL:
